@@ -382,6 +382,27 @@ def generate(rng, tier):
     # streams with inconsistent framing: predicate only
     for _ in range(30 if thorough else 8):
         yield stream_case(rng)
+    # directed (drawn from nothing: the cases above are what they were): receipts whose date / count fields are digits
+    # only but far beyond any date - whatever arithmetic a parser does on them (seconds, offsets, years) must end in a
+    # nack or an answer, not in an exception the receiver does not expect
+    texts = ['id:L1 done date:2309301200' + '9' * 15, 'id:L2 submit date:' + '1' * 40, 'id:L3 done date:250101120199999999',
+             'id:L4 submit date:2501011200 done date:2501011201' + '0' * 30, 'id:L5 sub:' + '9' * 30 + ' dlvrd:' + '9' * 30,
+             'id:L6 done date:9999999999' + '9' * 90, 'id:L7 submit date:0000000000' + '8' * 12,
+             'id:L8 done date:250101120160', 'id:L9 done date:25010112010000000000000000000001']
+    items = []
+    for i, text in enumerate(texts):
+        for esm in (4, 0):
+            body = b'\x00\x00\x00\x00\x00\x00\x00' + bytes([esm]) + b'\x00\x00\x00\x00\x00\x00' + b'\x00' + b'\x00' + \
+                bytes([len(text)]) + text.encode('latin-1')
+            items.append((pdu(5, 0, 7000 + 2 * i + (esm == 0), body), 'receipt-long-digits'))
+    for default in ('gsm0338', 'ascii'):
+        obs, early, exc = batch([p for p, _ in items], default, [t for _, t in items])
+        for (p, tag), o in zip(items, obs):
+            fail = predicate(p, o, cmds, stats, reqs)
+            real = show_action(o, p)
+            line = 'rx %s %s' % (L.enc_triple(default), p.hex())
+            sig = ('rx', '00000005', tag, real.split(' ')[0] + (real.split(' ')[1][-3:] if ' ' in real else ''))
+            yield Case(line, real, sig, fail, {'op': 'rx', 'default': default, 'hex': p.hex()})
 
 
 def chunked_stream_case(rng, default, fixed=None):
